@@ -248,7 +248,9 @@ EXTRA = [
 ]
 PRELUDE = pool.PRELUDE + ["struct Bar (ba)"] + ["%s := %s" % (k, s) for k, (s, _f) in PREDS.items()] + \
     ["%s := %s" % (k, s) for k, s in EXTRA]
-TABLE_NAMES = pool.NAMES + [k for k, _ in EXTRA]
+# dicts holding functions / instances / streams as values cannot be rendered back to source by this module
+_SKIP = {"dfn", "dinst", "dstream"}
+TABLE_NAMES = [n_ for n_ in pool.NAMES if n_ not in _SKIP] + [k for k, _ in EXTRA]
 KIND_OF = {p[0]: p[2] for p in pool.POOL}
 KIND_OF.update({"xbar": "inst", "xs_he": "str", "xs_e": "str", "xs_jp": "str", "xnest": "inst", "xfb": "inst",
                 "tbar": "type", "r2": "stream", "xwv": "stream", "lm2": "stream", "xl2": "list", "q31": "rational"})
@@ -1403,6 +1405,13 @@ def fixed_cases(table):
         ("declare", [("seq", [N(1), ("splat", N(2)), N(3)], False)], [1], True),
         ("lambdaN", [("seq", [("splat", N(1))], False)], [], False),
         ("declare", [("seq", [N(1), ("splat", N(2))], False)], [], True),
+        # an annotated splat must not pass its type on to the items after it
+        ("lambdaN", [("seq", [N(1), ("splat", ("ann", N(2), ("b", "list"))), N(3)], False)], [1, 2, 3, 4], False),
+        ("lambdaN", [("seq", [("splat", ("ann", N(1), ("b", "list"))), ("default", N(2), "5", 5)], False)], [], False),
+        ("lambdaN", [("seq", [("splat", ("ann", N(1), ("b", "list"))), N(2)], False)], [1, "a"], False),
+        ("declare", [("seq", [N(1), ("splat", ("ann", N(2), ("b", "list"))), N(3)], True)], [1, 2, "z"], True),
+        ("switch", [("seq", [("splat", ("ann", N(1), ("b", "list"))), N(2), N(3)], True)], [1, 2, 3], True),
+        ("for", [("seq", [N(1), ("splat", ("ann", N(2), ("b", "anything"))), N(3)], True)], ["a", 2, None], True),
     ]
     for ctx, pats, v, bare in spec:
         c = render_case(r, ctx, pats, v, bare=bare)
